@@ -667,12 +667,19 @@ class Exec:
         st = st or State()
         fn = s.mod.fns[fname]
         if len(args) != len(fn.params): raise HarnessError('%s expects %d args' % (fname, len(fn.params)))
+        args = [s.coerce_arg(t, a) for (t, n), a in zip(fn.params, args)]
         regs = {n: a for (t, n), a in zip(fn.params, args)}
         st.stack.append(Frame(fn, fn.entry, regs, None))
         s.called.add(fname)
         results = []
         s.explore(st, None, results)
         return results
+    def coerce_arg(s, t, a):
+        t = s.resolve(t)
+        if isinstance(t, IntT) and t.w == 1 and z3.is_expr(a) and z3.is_bv(a): return z3.simplify(a != 0)     # _Bool parameters are i1
+        if isinstance(t, IntT) and t.w > 1 and z3.is_expr(a) and z3.is_bv(a) and a.size() != t.w:
+            return z3.simplify(z3.Extract(t.w - 1, 0, a) if a.size() > t.w else z3.SignExt(t.w - a.size(), a))
+        return a
     def explore(s, st, stop, results):
         """run st until it terminates (Result appended) or reaches stop=(depth, fn, blk); returns states at stop"""
         work = [st]; reached = []
